@@ -20,8 +20,10 @@ Inductive case :=
 | CShare (r : N) (ts : list bytes) (ds : list bool)
 (** a program on a provider with sampler [s], an ID generator answering [gens]
     in order, a simple and a batch processor: spans, exporter contents (span ids, in
-    order, after ending every span in start order), generator call log (NewIDs?, trace id argument) *)
-| CProg (s : sampler) (gens : list (bytes * bytes)) (ops : list start_op)
+    order, after ending every span in start order), generator call log (NewIDs?, trace id argument);
+    wa: the sampler was wrapped by recorders (answers observed) - otherwise it was built plainly, ParentBased with
+    its options in any order, defaults omitted, overridden duplicates *)
+| CProg (wa : bool) (s : sampler) (gens : list (bytes * bytes)) (ops : list start_op)
         (obs : list span_obs) (exp_simple exp_batch : list bytes) (calls : list (bool * bytes))
 (** the same on a provider configured only by OTEL_TRACES_SAMPLER[_ARG]
     (arg: unset / set but unparsable / parsed bits) *)
@@ -136,7 +138,19 @@ Definition start_spec (s : sampler) (obs : list span_obs) (gens : list (bytes * 
       bytes_eqb (o_tid c) (if negb (zero (o_tid parent)) then o_tid parent else fst g) &&
       negb (o_remote c) && (o_flags c / 2 =? o_flags parent / 2) &&
       implb (sampled_flag (o_flags c)) (so_recording so) && Bool.eqb in1 (sampled_flag (o_flags c)) &&
-      implb (stock s) (bytes_eqb (o_ts c) (o_ts parent))
+      implb (stock s) (bytes_eqb (o_ts c) (o_ts parent)) &&
+      (* ParentBased: when the delegate that the parent's shape selects answers a constant, flag and recording follow it *)
+      match s with
+      | SParent root rs rns ls lns =>
+          match pick parent root rs rns ls lns with
+          | SAlways => sampled_flag (o_flags c) && so_recording so
+          | SNever => negb (sampled_flag (o_flags c)) && negb (so_recording so)
+          | SCustom d _ => Bool.eqb (sampled_flag (o_flags c)) (code d =? D_SAMPLE) &&
+                           Bool.eqb (so_recording so) (negb (code d =? D_DROP))
+          | _ => true
+          end
+      | _ => true
+      end
   end.
 
 Fixpoint starts_spec (s : sampler) (obs : list span_obs) (gens : list (bytes * bytes)) (e1 e2 : list bytes)
@@ -195,8 +209,8 @@ Definition check_case (c : case) : list N :=
   | CShare r ts ds =>
       flag (list_eqb Bool.eqb (map (ratio_sampled r) ts) ds) V_MISMATCH ++
       flag (share_sample_ok r ds SHARE_TOL) V_SPECFAIL
-  | CProg s gens ops obs e1 e2 calls =>
-      flag (prog_mismatch true s gens ops obs e1 e2 calls) V_MISMATCH ++
+  | CProg wa s gens ops obs e1 e2 calls =>
+      flag (prog_mismatch wa s gens ops obs e1 e2 calls) V_MISMATCH ++
       flag (prog_spec s gens ops obs e1 e2 calls) V_SPECFAIL
   | CEnv raw arg gens ops obs e1 e2 calls =>
       let s := provider_sampler raw arg in
